@@ -179,6 +179,7 @@ def run_schedule(payload, rnd=None):
     rr.time = types.SimpleNamespace(time=lambda: 0.0, sleep=lambda d: S.yield_point('sleep'))
     try:
         executed, reported, hooks = [], [], collections.Counter()
+        kept = []
 
         class I(Interpreter):
             @property
@@ -220,6 +221,7 @@ def run_schedule(payload, rnd=None):
             def after_execute(self, steps):
                 S.yield_point('after_execute')
                 reported.append([s.event.name if s.event is not None else '<init>' for s in steps])
+                kept.append(steps)      # (a hook may well keep what it was handed)
 
             def wait(self):
                 # the real wait() joins only a live thread; one scheduling point in either case
@@ -234,7 +236,7 @@ def run_schedule(payload, rnd=None):
         r_events = list(Ctx.events)
         start_err = []
 
-        def client_body(prog):
+        def client_body(prog, who=None):
             def body():
                 for op in prog:
                     k = op[0]
@@ -253,6 +255,7 @@ def run_schedule(payload, rnd=None):
                         r.unpause()
                     elif k == 'stop':
                         r.stop()
+                        S.trace.append((who, 'stop-returned'))
                     elif k == 'wait':
                         r.wait()
             return body
@@ -260,7 +263,7 @@ def run_schedule(payload, rnd=None):
         for i, prog in enumerate(payload['clients']):
             nm = 'client%d' % i
             names.append(nm)
-            S.spawn(nm, client_body(prog))
+            S.spawn(nm, client_body(prog, nm))
         sched = []
         fixed = payload.get('sched')
         n = 0
@@ -296,6 +299,9 @@ def run_schedule(payload, rnd=None):
                'unpaused': r_events[i_unpaused].flag, 'stop': r_events[i_stop].flag, 'final': Interpreter.final.fget(it),
                'runner_done': S.state.get('runner') == 'done', 'starved': starved,
                'enabled': [nm in en for nm in names]}
+        later = [[s.event.name if s.event is not None else '<init>' for s in steps] for steps in kept]
+        if later != reported:
+            obs['kept'] = later
         aux = {'result': result, 'trace': list(S.trace), 'names': names,
                'states': {k: (v if isinstance(v, str) else 'blocked') for k, v in S.state.items()}}
         return obs, aux
@@ -401,6 +407,9 @@ class C20(Prop):
             res.violations.append('reported macro steps %s are not the executed ones %s' % (flat, ex))
         if obs['runner_done'] and flat != ex:
             res.violations.append('runner finished but executed %s ≠ reported %s' % (ex, flat))
+        if 'kept' in obs:
+            res.violations.append('what after_execute was handed changed after the call: it was handed %s, the same lists hold %s '
+                                  'at the end' % (obs['reported'], obs['kept']))
         if not p['execute_all'] and any(len(c) > 1 for c in obs['reported']):
             res.violations.append('more than one macro step reported in one cycle without execute_all')
         if obs['before_run'] > 1 or obs['after_run'] > 1:
@@ -457,6 +466,11 @@ class C20(Prop):
         joins = [i for i, (nm, lab) in enumerate(trace) if nm.startswith('client') and lab == 'join']
         if joins and any(nm == 'runner' and lab == 'execute_once' for nm, lab in trace[joins[0] + 1:]):
             res.violations.append('execute_once ran after stop()/wait() returned')
+        back = [i for i, (nm, lab) in enumerate(trace) if lab == 'stop-returned']
+        if back:
+            late = [lab for nm, lab in trace[back[0] + 1:] if nm == 'runner']
+            if late:
+                res.violations.append('the runner thread was still at work after stop() had returned: %s' % late[:6])
         if aux['result'] == 'deadlock':
             res.features.add('deadlock')
             stopped = any(op[0] == 'stop' for c in p['clients'] for op in c)
